@@ -41,7 +41,7 @@ class C05(Check):
         "independent": ["sim/specref/sharded.py (Morton code and routing "
                         "used by the generator to build hole patterns)"],
     }
-    tiers = {"quick": dict(runs=1600, budget=60),
+    tiers = {"quick": dict(runs=8000, budget=60),
              "thorough": dict(runs=60000, budget=720)}
     expected_probes = ["flush_cascade_ge2", "gap_fill_on_close", "parked",
                       "unused_minishard_slot", "bits_total_ge_64",
